@@ -286,3 +286,82 @@ def positive_guard(name: str) -> Callable[[Node], Optional[bool]]:
                 return True
         return None
     return val
+
+
+# ------------------------------------------------------------------ E9
+
+def field_ops(idx: Index, modules: Iterable[str], field: str,
+              owner_attr: str = 'self') -> List[Tuple[FuncInfo, ast.AST, str]]:
+    """All syntactic mutations of `<owner>.<field>` in the given modules:
+    (function, node, kind).  Kinds: append extend insert pop0 pop_last
+    pop_other remove clear sort reverse del0 del_head del_other
+    assign_empty assign_other slice_assign aug item_assign."""
+    name = f'{owner_attr}.{field}'
+    out: List[Tuple[FuncInfo, ast.AST, str]] = []
+    for fi in idx.iter_funcs(modules):
+        for n in ast.walk(fi.node):
+            if isinstance(n, ast.Call) and isinstance(n.func, ast.Attribute) \
+                    and dotted(n.func.value) == name:
+                m = n.func.attr
+                if m == 'pop':
+                    if n.args and isinstance(n.args[0], ast.Constant) and \
+                            n.args[0].value == 0:
+                        out.append((fi, n, 'pop0'))
+                    elif not n.args:
+                        out.append((fi, n, 'pop_last'))
+                    else:
+                        out.append((fi, n, 'pop_other'))
+                elif m in ('append', 'extend', 'insert', 'remove', 'clear',
+                           'sort', 'reverse', 'appendleft', 'popleft'):
+                    out.append((fi, n, m))
+            elif isinstance(n, ast.Delete):
+                for t in n.targets:
+                    if isinstance(t, ast.Subscript) and \
+                            dotted(t.value) == name:
+                        s = t.slice
+                        if isinstance(s, ast.Constant) and s.value == 0:
+                            out.append((fi, n, 'del0'))
+                        elif isinstance(s, ast.Slice) and s.lower is None:
+                            out.append((fi, n, 'del_head'))
+                        else:
+                            out.append((fi, n, 'del_other'))
+            elif isinstance(n, (ast.Assign, ast.AnnAssign)):
+                tg = n.targets if isinstance(n, ast.Assign) else [n.target]
+                v = n.value
+                for t in tg:
+                    if dotted(t) == name and v is not None:
+                        if isinstance(v, (ast.List, ast.Tuple)) and \
+                                not v.elts:
+                            out.append((fi, n, 'assign_empty'))
+                        elif isinstance(v, ast.Dict) and not v.keys:
+                            out.append((fi, n, 'assign_empty'))
+                        else:
+                            out.append((fi, n, 'assign_other'))
+                    elif isinstance(t, ast.Subscript) and \
+                            dotted(t.value) == name:
+                        out.append((fi, n, 'slice_assign' if isinstance(
+                            t.slice, ast.Slice) else 'item_assign'))
+            elif isinstance(n, ast.AugAssign) and dotted(n.target) == name:
+                out.append((fi, n, 'aug'))
+    return out
+
+
+FIFO_OK = {'append', 'extend', 'pop0', 'del0', 'del_head', 'assign_empty'}
+
+
+def check_fifo(k: 'Kit', rule: str, modules: Iterable[str], field: str,
+               floor: int, init_funcs: Tuple[str, ...] = ('__init__',),
+               extra_ok: Tuple[str, ...] = ()) -> None:
+    ops = field_ops(k.idx, modules, field)
+    n = 0
+    for fi, node, kind in ops:
+        if fi.name in init_funcs and kind.startswith('assign'):
+            continue
+        n += 1
+        k.rep.check(kind in FIFO_OK or kind in extra_ok, rule,
+                    key(fi, f'{field}.{kind}'),
+                    f'{field}: {kind} keeps FIFO order',
+                    f'`{norm(node)}` is a {kind} on the queue {field}: '
+                    'entries can be reordered, duplicated or lost',
+                    fi.loc(node))
+    k.rep.floor(rule, f'{field} operations', n, floor)
